@@ -77,6 +77,9 @@ func (a AttrSpec) build() slog.Attr {
 		return slog.Any(k, textMarshaler{string(a.Str)})
 	case 13:
 		return slog.Attr{}
+	case 15:
+		// A large value: the text line outgrows any pooled buffer.
+		return slog.String(k, strings.Repeat("y", int(uint64(a.Int)%60000)))
 	default:
 		return slog.Any(k, []string{string(a.Str), "x"})
 	}
@@ -98,6 +101,7 @@ type NodeSpec struct {
 
 // RecSpec is one record and the nodes it is handled by.
 type RecSpec struct {
+	BigMsg    int          `json:"big_msg,omitempty"` // if > 0 the message is that many bytes long
 	Level     int          `json:"level"`
 	HasTime   bool         `json:"has_time"`
 	Msg       vp.S         `json:"msg"`
@@ -176,7 +180,11 @@ func (r RecSpec) build() slog.Record {
 	if r.HasTime {
 		tm = time.Unix(1700000000, 123).UTC()
 	}
-	rec := slog.NewRecord(tm, slog.Level(r.Level), string(r.Msg), 0)
+	msg := string(r.Msg)
+	if r.BigMsg > 0 {
+		msg = strings.Repeat("m", r.BigMsg)
+	}
+	rec := slog.NewRecord(tm, slog.Level(r.Level), msg, 0)
 	for _, call := range r.AttrCalls {
 		rec.AddAttrs(buildAll(call)...)
 	}
@@ -304,6 +312,18 @@ func classify(c Case, prefix string) {
 			break
 		}
 	}
+	for i, r := range c.Records {
+		big := r.BigMsg > 16384
+		for _, call := range r.AttrCalls {
+			for _, a := range call {
+				big = big || (a.Kind == 15 && uint64(a.Int)%60000 > 16384)
+			}
+		}
+		if big && i < len(c.Records)-1 {
+			vp.Class(prefix + ":line-over-16KiB-followed-by-another-record")
+			break
+		}
+	}
 	for _, r := range c.Records {
 		n := 0
 		for _, call := range r.AttrCalls {
@@ -328,6 +348,11 @@ var strGen = rapid.OneOf(
 func attrGen(depth int) *rapid.Generator[AttrSpec] {
 	return rapid.Custom(func(t *rapid.T) AttrSpec {
 		a := AttrSpec{Key: vp.S(strGen.Draw(t, "key")), Kind: rapid.IntRange(0, 14).Draw(t, "kind")}
+		if rapid.IntRange(0, 500).Draw(t, "big") == 317 {
+			a.Kind = 15
+			a.Int = int64(rapid.SampledFrom([]int{300, 5000, 9500, 17000, 20000}).Draw(t, "bigsize"))
+			return a
+		}
 		switch a.Kind {
 		case 0, 7, 8, 11, 12, 14:
 			a.Str = vp.S(strGen.Draw(t, "str"))
@@ -370,6 +395,9 @@ func genCase(t *rapid.T, concurrent bool) Case {
 			HasTime: rapid.Bool().Draw(t, "hastime"),
 			Msg:     vp.S(strGen.Draw(t, "msg")),
 			Uses:    rapid.SliceOfN(rapid.IntRange(0, nn), 1, 4).Draw(t, "uses"),
+		}
+		if rapid.IntRange(0, 120).Draw(t, "bigmsg") == 77 {
+			r.BigMsg = rapid.SampledFrom([]int{257, 4097, 10000, 16385, 20000}).Draw(t, "bigmsgsize")
 		}
 		calls := rapid.IntRange(0, 3).Draw(t, "calls")
 		for j := 0; j < calls; j++ {
